@@ -125,7 +125,7 @@ Proof.
   apply (run_pres (fun s => s_hooks s = h0)).
   - intros s e H. rewrite fail_hooks. exact H.
   - intros s e _ H. exact H.
-  - intros s a kind r hold sw run H. exact H.
+  - apply callback_from_emit; [intros s e H; rewrite fail_hooks; exact H|intros s a kind r hold sw run H; exact H].
   - intros s e _ H. exact H.
   - intros s mkid x ag mk buy p v ttlv m' rc tag _ _ H. exact H.
   - intros s mkid x i m' rc _ _ H. exact H.
@@ -495,9 +495,10 @@ Proof.
   destruct (IH (notify_fill s0 mkid r) (round_ctx_notify _ _ _ C0)) as [tr Htr]. rewrite Htr.
   assert (N : exists tr1, s_trace (notify_fill s0 mkid r) = tr1 ++ s_trace s0).
   { apply (notify_fill_pres (fun s1 => exists tr1, s_trace s1 = tr1 ++ s_trace s0)); auto.
-    - intros s1 e [t1 H1]. exists t1. unfold fail. destruct (s_err s1); auto.
     - intros s1 e _ [t1 H1]. exists (e :: t1). cbn. rewrite H1. reflexivity.
-    - intros s1 a kind r1 hold sw run [t1 H1]. eexists (_ :: t1). cbn. rewrite H1. reflexivity.
+    - apply callback_from_emit.
+      + intros s1 e [t1 H1]. exists t1. unfold fail. destruct (s_err s1); auto.
+      + intros s1 a kind r1 hold sw run [t1 H1]. eexists (_ :: t1). cbn. rewrite H1. reflexivity.
     - intros s1 e mk _ _ [t1 H1]. exists t1. destruct (halt_after_fields s1 e mk) as [T _]. rewrite T. auto.
     - exists []. reflexivity. }
   destruct N as [tr1 Htr1]. rewrite Htr1. exists (tr ++ tr1). rewrite app_assoc. reflexivity.
